@@ -51,14 +51,23 @@ WorldSel ==
       [] Fam = "leg"  -> {W(v, o, r, Absent, l) : v \in BOOLEAN, o \in {"off", "host"}, r \in {Absent, YFile("empty", NoSecs)},
                                                   l \in LegDocs}
       [] Fam = "prec" -> {W(v, "ip", r, c, l) : v \in BOOLEAN, r \in PrecDocs("red"), c \in PrecDocs("con"), l \in PrecDocs("leg")}
-      [] Fam = "sim"  -> {W(RandomElement(BOOLEAN), RandomElement(Obfs),
-                            Perm(RandomElement(RedDocs \cup PrecDocs("red")), RandomElement({"600", "600", "644"})),
-                            Perm(RandomElement(ConDocs \cup PrecDocs("con")), RandomElement({"600", "600", "640"})),
-                            Perm(RandomElement(LegDocs \cup PrecDocs("leg")), RandomElement({"600", "600", "666"})))}
+      [] Fam = "sim"  -> {W(FALSE, "off", Absent, Absent, Absent)}
       [] OTHER        -> {}
 
-MCInit == w \in WorldSel /\ InitRest
-MCSpec == MCInit /\ [][Next]_vars
+RandomWorld(d) ==      \* (a parameter, so that TLC does not evaluate it once as a constant)
+    W(RandomElement(BOOLEAN), RandomElement(Obfs),
+      Perm(RandomElement(RedDocs \cup PrecDocs("red")), RandomElement({"600", "600", "644"})),
+      Perm(RandomElement(ConDocs \cup PrecDocs("con")), RandomElement({"600", "600", "640"})),
+      Perm(RandomElement(LegDocs \cup PrecDocs("leg")), RandomElement({"600", "600", "666"})))
+(* -simulate: the world is drawn in the first step of each behaviour *)
+Pick == /\ ph = "pick"
+        /\ \E x \in {RandomWorld(cur)} : w' = x /\ eff' = NoEff(x.obf)
+        /\ ph' = "file" /\ UNCHANGED <<cur, step, ld, res, rep>>
+MCInit == /\ w \in WorldSel /\ InitRest
+MCInitSim == /\ w \in WorldSel /\ cur = 1 /\ step = "locate" /\ ph = "pick"
+             /\ ld = [f \in FileIds |-> [st |-> "pending", s |-> NoSecs]]
+             /\ res = Undecided /\ eff = NoEff(w.obf) /\ rep = NoRep
+MCSpec == (IF Fam = "sim" THEN MCInitSim ELSE MCInit) /\ [][Pick \/ Next]_vars
 
 Emit == Done => PrintT(<<"CASE", ToJson([w |-> w, k |-> res.k, why |-> res.why, lists |-> Lists(res.conf)])>>)
 =============================================================================
